@@ -9,7 +9,9 @@ checks it performs *directly*, in program order, as terms of `check` (coq/model/
     columnize(name, SHAPE, name=...)                 -> Columnize "name" SHAPE
     vg.shape.check(locals(), "b", a.shape)           -> CheckSame "b" "a"      (also through `s = a.shape`)
     for x in xs: vg.shape.check(locals(), "x", S)    -> CheckEach "xs" S
-    x = x.flatten(); vg.shape.check_value(x, S)      -> CheckFlat "x" S      (x = np.asarray(x) is transparent)
+    x = x.flatten(); vg.shape.check_value(x, S)      -> CheckFlat "x" S
+    (transparent, shape-preserving: x = np.asarray(x[, dtype=...]); x = x.astype(T); and a plain `if` without else whose
+     test mentions only x and whose body consists of such assignments of x)
     if a is not None: <check>  /  if a is None: ... else: <check>   -> IfPresent "a" <check>
     if a.shape == T: ... else: vg.shape.check(locals(), "a", S)     -> NeedsShape "a"; CheckAny "a" [T; S]
 
@@ -165,6 +167,20 @@ class FunctionExtractor:
             return "flat"
         _err(self.path, call, "`%s` is reassigned before its shape check (the check is not about the argument)" % name)
 
+    @staticmethod
+    def is_astype(st):
+        return (isinstance(st, ast.Assign) and len(st.targets) == 1 and isinstance(st.targets[0], ast.Name)
+                and isinstance(st.value, ast.Call) and isinstance(st.value.func, ast.Attribute)
+                and st.value.func.attr == "astype" and isinstance(st.value.func.value, ast.Name)
+                and st.value.func.value.id == st.targets[0].id and len(st.value.args) == 1 and not st.value.keywords)
+
+    @staticmethod
+    def is_asarray(st):
+        return (isinstance(st, ast.Assign) and len(st.targets) == 1 and isinstance(st.targets[0], ast.Name)
+                and isinstance(st.value, ast.Call) and _attr_chain(st.value.func) in (["np", "asarray"], ["np", "array"])
+                and len(st.value.args) == 1 and isinstance(st.value.args[0], ast.Name)
+                and st.value.args[0].id == st.targets[0].id and set(k.arg for k in st.value.keywords) <= {"dtype"})
+
     # -- one check call -----------------------------------------------------------------------------------
     def one_check(self, call, target, loop_var=None):
         """returns the Coq term for this call; `target` is the assignment target (ast node) or None"""
@@ -311,6 +327,20 @@ class FunctionExtractor:
             if self.stored.get(st.targets[0].id) in (None, "asarray"):
                 self.stored[st.targets[0].id] = "asarray"
             return
+        # x = x.astype(<dtype>): the shape is unchanged
+        if self.is_astype(st):
+            if self.stored.get(st.targets[0].id) in (None, "asarray"):
+                self.stored[st.targets[0].id] = "asarray"
+            return
+        # if <test about x only>: x = x.astype(...) / x = np.asarray(x, ...)   (plain `if`, no else): shape-preserving
+        if (isinstance(st, ast.If) and not st.orelse and st.body
+                and all(self.is_astype(b) or self.is_asarray(b) for b in st.body)):
+            names = {b.targets[0].id for b in st.body}
+            used = {x.id for x in ast.walk(st.test) if isinstance(x, ast.Name)}
+            if used <= names | {"np"} and all(self.stored.get(n) in (None, "asarray") for n in names):
+                for n in names:
+                    self.stored[n] = "asarray"
+                return
         # x = x.flatten(): later checks of x are about the flattened array
         if (isinstance(st, ast.Assign) and len(st.targets) == 1 and isinstance(st.targets[0], ast.Name)
                 and isinstance(st.value, ast.Call) and not st.value.args and not st.value.keywords
